@@ -154,8 +154,13 @@ def r1(ctx: Ctx) -> None:
     ctx.site(fs.where, "soft module without area refused")
     if mk_or([hard, area_def]) not in ta:
         ctx.report(fs.where, "reject-soft-no-area", "a soft module without area is not refused", lineno=fs.node.lineno)
+    # what is asserted for hard modules: inside 'if self.is_hard:', or -- the normal form -- as the implication 'not hard or ...'
     hard_blocks = [st for st in cs if st[0] == "if" and st[1] == hard]
     th = top_asserts(hard_blocks[0][2]) if len(hard_blocks) == 1 else set()
+    for t in ta:
+        if t[0] == "or" and mk_not(hard) in t[1]:
+            rest = [d for d in t[1] if d != mk_not(hard)]
+            th.add(rest[0] if len(rest) == 1 else mk_or(rest))
     ctx.site(fs.where, "hard module with an area refused")
     if mk_not(area_def) not in th:
         ctx.report(fs.where, "reject-hard-area", "a hard module with an area is not refused", lineno=fs.node.lineno)
@@ -230,6 +235,11 @@ def r1(ctx: Ctx) -> None:
             else:
                 ok = refuses(nxt) and seen == known
                 cur = None
+        # the normal form of 'else: assert False' at the end of the chain: the assertion 'key is one of the known attributes'
+        if not ok:
+            for a_st in key_loops[0][3]:
+                if a_st[0] == "assert" and eq_constants(a_st[1], kv) == known:
+                    ok = True
     if not ok:
         ctx.report(fr.where, "reject-unknown-attr-reader", "the reader does not refuse an unknown module attribute (or its key table differs from the documented one)",
                    lineno=fr.node.lineno)
